@@ -2,6 +2,7 @@
 #![allow(clippy::all)]
 
 pub mod c01;
+pub mod c02;
 pub mod c03;
 pub mod c04;
 pub mod c05;
@@ -33,6 +34,7 @@ use runner::{Scenario, Tier};
 pub fn scenario_for(pid: &str) -> Option<&'static dyn Scenario> {
     Some(match pid {
         "C01" => &c01::C01,
+        "C02" => &c02::C02,
         "C03" => &c03::C03,
         "C04" => &c04::C04,
         "C05" => &c05::C05,
